@@ -112,6 +112,14 @@ def ob_povm(kinds, names, sym, pick):
             ref = kron_all([mats[i][midx[pos]] for pos, i in enumerate(order)])
             got = refs.ref_matrix(res.vec(tuple(midx)), B)
             out.append(Eq(f"element {midx}", got, ref, 1e-8))
+        if k == 3:
+            # grouping: a x (b x c) and (a x b) x c give the same POVM with the same outcome layout as the flat call
+            for gname, alt in (("a x (b x c)", tensor_product(pvs[0], tensor_product(pvs[1], pvs[2]))),
+                               ("(a x b) x c", tensor_product(tensor_product(pvs[0], pvs[1]), pvs[2]))):
+                out.append(Holds(f"{gname}: nums_local_outcomes as for the flat call", list(alt.nums_local_outcomes) == counts))
+                out.append(Holds(f"{gname}: number of elements", len(alt.vecs) == len(res.vecs)))
+                for j in range(min(len(alt.vecs), len(res.vecs))):
+                    out.append(Eq(f"{gname}: element {j} as for the flat call", alt.vecs[j], res.vecs[j], 1e-8))
         return out
     vecs_lib, _ = povm_lib(kinds[sym])
     inp = []
@@ -381,6 +389,10 @@ def obligations(tier):
         for names in itertools.permutations(range(k)):
             for sym in ([0] if tier == "quick" else range(k)):
                 out += specs("C07.povm", [{"kinds": kinds, "names": list(names), "sym": sym, "pick": pick}], ob_povm, 3)
+    if tier == "quick":
+        # three factors (flat call, a x (b x c), (a x b) x c) with the symbolic factor on the lowest / middle / highest name
+        for names in ([0, 1, 2], [1, 0, 2], [2, 0, 1]):
+            out += specs("C07.povm", [{"kinds": "QQQ", "names": names, "sym": 0, "pick": [0, 3, 0]}], ob_povm, 3)
     for kinds, pick in tiers(tier, [("QQ", ["ampdamp", "S"]), ("QT", ["ampdamp", "mix"])], [("QQ", ["ampdamp", "S"]), ("QT", ["ampdamp", "mix"]), ("TQ", ["mix", "S"]), ("QQQ", ["ampdamp", "S", "rx"])]):
         k = len(kinds)
         for names in itertools.permutations(range(k)):
